@@ -1,10 +1,16 @@
 package c10
 
 import (
+	"bytes"
+	"fmt"
 	"os"
+	"sort"
+	"sync"
 	"testing"
+	"time"
 
 	"github.com/inbucket/inbucket/v3/pkg/extension"
+	"github.com/inbucket/inbucket/v3/pkg/storage"
 	"pgregory.net/rapid"
 	"verif/harness/hx"
 )
@@ -114,13 +120,206 @@ func run(c Case) *hx.Outcome {
 	return o
 }
 
-func TestProp(t *testing.T)    { prop.Check(t) }
-func TestRegress(t *testing.T) { prop.Regress(t) }
+// ---- busy: what concurrent clients left behind is what a restart shows ----------------
+
+// BOp is one step of a client: deliver, or remove / mark seen the N-th of its OWN earlier
+// deliveries that it has not removed yet. Clients never touch each other's messages, so the
+// final state is the same for every interleaving.
+type BOp struct {
+	K    string `json:"k"` // add remove seen
+	Box  int    `json:"box"`
+	Size int    `json:"size,omitempty"`
+	N    int    `json:"n,omitempty"`
+}
+
+// BCase: 2-5 clients work on 1-2 mailboxes of one lock bucket, then the store is reopened.
+type BCase struct {
+	Clients [][]BOp `json:"clients"`
+	NBox    int     `json:"nbox"`
+}
+
+var propBusy = hx.Prop[BCase]{
+	ID: pid, Name: "busy",
+	Rule: "file store, no cap: 2-5 concurrent clients each run 4-20 operations (deliver 1..3000 bytes; remove or mark-seen one of its own, still " +
+		"present deliveries) on 1-2 mailboxes sharing a lock bucket; since clients only touch their own messages the outcome is independent of the " +
+		"interleaving: at quiescence every mailbox must hold exactly the deliveries not removed by their owner, each with its content and seen " +
+		"flag, and a fresh file.New on the same path must show the identical listing (order, ids, flags, sizes, content); non-trivial = some " +
+		"client removed a message of a mailbox another client delivered to; distinct = distinct case JSON",
+	Quick: 60, Thorough: 600,
+	Gen: func(t *rapid.T) BCase {
+		c := BCase{NBox: rapid.IntRange(1, 2).Draw(t, "nbox")}
+		og := rapid.Custom(func(t *rapid.T) BOp {
+			return BOp{K: rapid.SampledFrom([]string{"add", "add", "add", "remove", "remove", "seen"}).Draw(t, "k"), Box: rapid.IntRange(0, 1).Draw(t, "box"),
+				Size: rapid.SampledFrom([]int{1, 40, 300, 3000}).Draw(t, "size"), N: rapid.IntRange(0, 5).Draw(t, "n")}
+		})
+		c.Clients = rapid.SliceOfN(rapid.SliceOfN(og, 4, 20), 2, 5).Draw(t, "clients")
+		return c
+	},
+	Run: runBusy,
+}
+
+type bmsg struct {
+	box, id string
+	body    []byte
+	seen    bool
+}
+
+func runBusy(c BCase) *hx.Outcome {
+	o := &hx.Outcome{}
+	dir := hx.TempDir()
+	defer os.RemoveAll(dir)
+	st := hx.NewFile(extension.NewHost(), dir, 0)
+	names := hx.Bucket3()[:c.NBox]
+	var mu sync.Mutex
+	var kept []*bmsg
+	removedShared, touched := false, map[string]map[int]bool{}
+	var errs []string // collected under mu, the Outcome is not for concurrent use
+	opFail := func(f string, a ...interface{}) {
+		mu.Lock()
+		errs = append(errs, fmt.Sprintf(f, a...))
+		mu.Unlock()
+	}
+	var wg sync.WaitGroup
+	done := make(chan struct{})
+	for ci, ops := range c.Clients {
+		wg.Add(1)
+		go func(ci int, ops []BOp) {
+			defer wg.Done()
+			var mine []*bmsg
+			for k, op := range ops {
+				box := names[op.Box%len(names)]
+				switch op.K {
+				case "add":
+					body := bytes.Repeat([]byte{byte('a' + ci)}, op.Size)
+					body = append(body, []byte(fmt.Sprintf("#%d.%d", ci, k))...)
+					id, err := st.AddMessage(hx.NewDelivery(box, nil, nil, hx.BaseTime, "busy", body))
+					if err != nil {
+						opFail("client %d: AddMessage(%s): %v", ci, box, err)
+						return
+					}
+					mine = append(mine, &bmsg{box: box, id: id, body: body})
+					mu.Lock()
+					if touched[box] == nil {
+						touched[box] = map[int]bool{}
+					}
+					touched[box][ci] = true
+					mu.Unlock()
+				case "remove", "seen":
+					if len(mine) == 0 {
+						continue
+					}
+					i := op.N % len(mine)
+					m := mine[i]
+					if op.K == "seen" {
+						if err := st.MarkSeen(m.box, m.id); err != nil {
+							opFail("client %d: MarkSeen(%s, %s) of its own live message: %v", ci, m.box, m.id, err)
+							return
+						}
+						m.seen = true
+						continue
+					}
+					if err := st.RemoveMessage(m.box, m.id); err != nil {
+						opFail("client %d: RemoveMessage(%s, %s) of its own live message: %v", ci, m.box, m.id, err)
+						return
+					}
+					mine = append(mine[:i], mine[i+1:]...)
+					mu.Lock()
+					if len(touched[m.box]) > 1 {
+						removedShared = true
+					}
+					mu.Unlock()
+				}
+			}
+			mu.Lock()
+			kept = append(kept, mine...)
+			mu.Unlock()
+		}(ci, ops)
+	}
+	go func() { wg.Wait(); close(done) }()
+	select {
+	case <-done:
+	case <-time.After(60 * time.Second):
+		o.Failf(pid+":hang", "the concurrent clients did not finish within 60 s")
+		return o
+	}
+	for _, e := range errs {
+		o.Failf(pid+":op-error", "%s", e)
+	}
+	if o.Failed() {
+		return o
+	}
+	want := map[string]*bmsg{}
+	for _, m := range kept {
+		want[m.box+"/"+m.id] = m
+	}
+	// snapshot compares one store instance with the expectation and returns its listing
+	snapshot := func(st storage.Store, when string) []string {
+		var listing []string
+		n := 0
+		for _, box := range names {
+			ms, err := st.GetMessages(box)
+			if err != nil {
+				o.Failf(pid+":list-error", "%s: GetMessages(%s): %v", when, box, err)
+				return nil
+			}
+			for _, m := range ms {
+				key := box + "/" + m.ID()
+				w := want[key]
+				if w == nil {
+					o.Failf(pid+":unexpected-message", "%s: mailbox %s lists %s, which its owner removed (or nobody delivered)", when, box, m.ID())
+					continue
+				}
+				n++
+				src, err := hx.ReadSource(m)
+				if err != nil || !bytes.Equal(src, w.body) {
+					o.Failf(pid+":content", "%s: %s: content unreadable or different (err %v, %d bytes, want %d)", when, key, err, len(src), len(w.body))
+				}
+				if m.Seen() != w.seen || m.Size() != int64(len(w.body)) {
+					o.Failf(pid+":metadata", "%s: %s: seen=%v size=%d, want seen=%v size=%d", when, key, m.Seen(), m.Size(), w.seen, len(w.body))
+				}
+				listing = append(listing, fmt.Sprintf("%s seen=%v size=%d", key, m.Seen(), m.Size()))
+			}
+		}
+		if n != len(want) && !o.Failed() {
+			var missing []string
+			have := map[string]bool{}
+			for _, l := range listing {
+				have[l[:bytes.IndexByte([]byte(l), ' ')]] = true
+			}
+			for k := range want {
+				if !have[k] {
+					missing = append(missing, k)
+				}
+			}
+			sort.Strings(missing)
+			o.Failf(pid+":lost-message", "%s: %d deliveries were acknowledged and never removed, %d are listed; missing: %v", when, len(want), n, missing)
+		}
+		return listing
+	}
+	before := snapshot(st, "at quiescence")
+	if o.Failed() {
+		return o
+	}
+	re := hx.NewFile(extension.NewHost(), dir, 0)
+	after := snapshot(re, "after reopening the store")
+	if !o.Failed() && fmt.Sprint(before) != fmt.Sprint(after) {
+		o.Failf(pid+":reopen-differs", "listing before the restart %v, after %v", before, after)
+	}
+	o.Class(fmt.Sprintf("%d clients, %d mailboxes", len(c.Clients), c.NBox))
+	if removedShared {
+		o.Class("removal in a mailbox shared with another client")
+	}
+	o.NonTrivial = removedShared
+	return o
+}
+
+func TestProp(t *testing.T)    { prop.Check(t); propBusy.Check(t) }
+func TestRegress(t *testing.T) { prop.Regress(t); propBusy.Regress(t) }
 func TestReplay(t *testing.T) {
 	if *hx.ReplayPath == "" {
 		t.Skip("no -replay")
 	}
-	if !prop.Replay(t, *hx.ReplayPath) {
+	if !prop.Replay(t, *hx.ReplayPath) && !propBusy.Replay(t, *hx.ReplayPath) {
 		t.Fatalf("no prop matches %s", *hx.ReplayPath)
 	}
 }
